@@ -1240,6 +1240,37 @@ impl Scenario for PlainSc {
                             let _ = std::fs::write(&fpath, &full);
                         }
                     }
+                    // ---- continued use after the crash: restore exactly what the killed put left behind,
+                    // reopen, put a SHORTER record and read everything back (a leftover temporary file must
+                    // not leak into a later record)
+                    let _ = std::fs::remove_dir_all(&imgdir);
+                    let _ = std::fs::create_dir_all(&imgdir);
+                    for (name, bytes) in &after {
+                        let _ = std::fs::write(imgdir.join(name), bytes);
+                    }
+                    let stage_name = stage.rsplit('.').next().unwrap_or(stage);
+                    let o = recover(&scen, &format!("{} {} then put again", famname, stage_name), || {
+                        let base = plain_readout(&imgdir)?;
+                        let mut st2 = PlainBlobStore::new(&imgdir).map_err(|e| e.to_string())?;
+                        let short: Vec<u8> = (0..(data.len() / 3)).map(|i| 0x40 | (i as u8 & 0x3f)).collect();
+                        let id2 = st2.put(&short).map_err(|e| format!("put after recovery: {}", e))?;
+                        drop(st2);
+                        let again = plain_readout(&imgdir)?;
+                        let mut want = base.clone();
+                        want.insert(id2, short.clone());
+                        if again != want {
+                            let got = again.get(&id2).map(|v| format!("{} bytes {}", v.len(), hex(v, 8))).unwrap_or_else(|| "absent".into());
+                            return Ok(Some(format!("after a put killed at {} and a reopen, a put of {} bytes as id {} reads back as {} (store {}, expected {})", stage_name, short.len(), id2, got, show_dir(&again), show_dir(&want))));
+                        }
+                        Ok(None)
+                    });
+                    tl.images += 1;
+                    match o {
+                        Outcome::Ok(None) => {}
+                        Outcome::Ok(Some(msg)) => v.add(PRIO_CLEAN, "record_after_recovery_wrong", "PlainBlobStore.put_after_crash", msg),
+                        Outcome::Refused => {}
+                        Outcome::Panic(loc, msg) => v.add(PRIO_PANIC, "panic", &loc, format!("PlainBlobStore put after a crash at {}: {}", stage_name, msg)),
+                    }
                 }
             }
             2 if !removes.is_empty() => {
